@@ -1,6 +1,7 @@
 import WK.Proofs.C32_Inv
 import WK.Proofs.C32_Tok
 import WK.Proofs.C32_Conc
+import WK.Proofs.C32_Attempts
 /-
   C32 — Receive-acknowledgement tracking is exact.
 
@@ -409,5 +410,17 @@ example : (runK exS [.finish (exP 1 0) 1, .ack ⟨[97], 2, 1⟩]).count = 1 ∧ 
 /-- the side condition matters: on the same identity the order is observable -/
 example : runK exS [.cancel (exP 1 0) 1, .finish (exP 1 0) 1] ≠ runK exS [.finish (exP 1 0) 1, .cancel (exP 1 0) 1] := by decide
 end conc_examples
+
+/-! ### attempt bookkeeping details (WK.Proofs.C32_Attempts): `c32_cancel_promotes_newest`, `c32_expire_ttl_ceil` -/
+
+section attempt_examples
+/-- non-vacuity: three overlapping uncommitted binds (tokens 1,2,3); cancelling the primary (1)
+    promotes the newest (3) and keeps 2: nothing is lost, nothing duplicated -/
+example : ((run (fresh 32 0 100) [.bind (exP 1 100), .bind (exP 1 101), .bind (exP 1 102), .cancel (exP 1 0) 1]).entries.map
+    (fun ke => (ke.2.primary, ke.2.extras.map (·.1), ke.2.pending.dat))) = [(3, [2], 102)] := by decide
+/-- non-vacuity: ttl 1.5 s, delivered 1 s ago (idle 1 s < 1.5 s): kept; delivered 2 s ago: expired -/
+example : (outstanding (run (fresh 32 0 100) [.bind (exP 1 99), .bind (exP 2 98), .expire 1500000000])).map (·.msg) = [1] := by decide
+example : ttlSeconds 1500000000 = 2 ∧ ttlSeconds 1 = 1 ∧ ttlSeconds 2000000000 = 2 := by decide
+end attempt_examples
 
 end WK.C32
